@@ -77,18 +77,22 @@ const (
 
 // next gets the next rune from the input.
 func (l *lexer) next() (r rune) {
-	for l.pos >= len(l.input) {
+	for l.pos >= len(l.input) || !utf8.FullRuneInString(l.input[l.pos:]) {
 		s, ok := <-l.inputs
 		if !ok {
+			if l.pos < len(l.input) {
+				break // incomplete rune at the very end of the input
+			}
 			if l.pos == l.start {
 				l.width = 0
 				return eof
 			}
 			// continue with leftover + s
 		}
-		l.input = l.input[l.start:l.pos] + s
+		rest := len(l.input) - l.start
+		l.input = l.input[l.start:] + s
 		l.posShift += l.start
-		l.lpUpd(s, l.posShift+l.pos-l.start)
+		l.lpUpd(s, l.posShift+rest)
 		l.pos -= l.start
 		l.start = 0
 		if !ok {
